@@ -29,6 +29,10 @@ add("C09", "bounded-exhaustive program enumeration; every lowered module checked
     "The module returned by LowerWithSource for every program of F1, F2, the micro-programs and the corpus is checked against 24 rules written from the property statement (handle ranges/backward references, no abstract types, type uniqueness, recorded type equals independently re-inferred type, emit coverage and dominance, terminators, return paths/types, store/call/atomic typing, entry-point and resource bindings, naga's own validator).",
     "Trusted base: internal/irx validator and its independent type inference.", "DESIGN.md §3 C09")
 
+add("C12", "explicit-state BFS over operation histories on real modules (state = canonical module hash) + all ordered pairs on a reused Backend + exhaustive map-iteration-order enumeration under an instrumented build + CHESS-style preemption-bounded schedule exploration under a cooperative scheduler, with a separate free-running -race pass",
+    "Four explorations on the real code: (1) BFS over all sequences (depth 2 quick / 3 thorough) of 9 operations on one shared module, invariants evaluated in every state (module hash unchanged, output equals output on a fresh module, returned bytes not aliased); (2) all ordered pairs of a module cover set on one reused spirv.Backend; (3) every range-over-map site in naga (82, instrumented by a build overlay generated from the current tree) iterating native/ascending/descending/rotated with byte-identical output required; (4) all interleavings of 2-3 concurrent compilations at function-entry yield points up to 1 (quick) / 2 (thorough) preemptions with a shared-state fingerprint invariant at every scheduling point, recorded schedules replayed twice; plus the same harness bodies free-running under the race detector.",
+    "spirv.Backend is single-owner and never shared. Interleavings are at function-entry granularity under sequential consistency; yield points per thread are capped (reported per scenario). The instrumentation overlay is regenerated from /repo's working tree on every run; /repo is not modified.", "DESIGN.md §3 C12")
+
 NA = {
 }
 for i in range(1, 20):
